@@ -451,6 +451,51 @@ def _f51(vio):
         "advanced indexes separated by basic indexes" in str(vio.get("detail"))
 
 
+def _obj_kinds(vio):
+    out = set()
+
+    def rec(o):
+        if isinstance(o, dict) and "k" in o:
+            out.add(o["k"])
+            v = o.get("v")
+            if isinstance(v, list):
+                for x in v:
+                    rec(x)
+    for o in (vio.get("case") or {}).get("objs", []) or []:
+        rec(o)
+    return out
+
+
+@mechanism("F55-builder-string-into-bytestring")
+def _f55(vio):
+    return vio.get("kind") in ("wrong-value", "growth-dependent", "c-api-differs") and \
+        {"bytes", "str"} <= _obj_kinds(vio) and "objs" in (vio.get("case") or {})
+
+
+@mechanism("F56-builder-datetime-union-snapshot")
+def _f56(vio):
+    return vio.get("kind") == "well-nested-history-raised" and "dtype not in {boolean" in str(vio.get("detail")) and \
+        bool({"datetime", "timedelta"} & _obj_kinds(vio))
+
+
+@mechanism("F57-builder-clear-length")
+def _f57(vio):
+    det = vio.get("detail") or {}
+    return vio.get("kind") == "clear" and det.get("length_after_clear") == -1
+
+
+@mechanism("F59-builder-tuples-of-different-size")
+def _f59(vio):
+    return vio.get("kind") in ("well-nested-history-raised", "well-nested-prefix-raised") and \
+        "is out of bounds for a tuple with number of fields" in str(vio.get("detail"))
+
+
+@mechanism("F61-builder-append-string-element")
+def _f61(vio):
+    return vio.get("kind") == "invalid-snapshot" and "only allowed for ListArray" in str(vio.get("detail")) and \
+        (vio.get("case") or {}).get("mode") == "append"
+
+
 @mechanism("F10-reduce-nonlocal")
 def _f10(vio):
     rep = _report(vio)
